@@ -145,8 +145,7 @@ theorem finishDir_outM (mt : M Prim) (ht : TestsOnly mt) (a : Prim) (ha : isOutP
   cases g.curDir <;> rfl
 
 theorem processDir_outM (c : Config) (mt : M Prim) (ht : TestsOnly mt) (a : Prim) (ha : isOutP a = true)
-    (start : Bytes) (root : Node Attr) (g : GS)
-    (hH : (refCfg c).depthFirst = true → ¬ HRootLink (refCfg c) (if c.sorted then sortNode root else root)) :
+    (start : Bytes) (root : Node Attr) (g : GS) :
     let n := if c.sorted then sortNode root else root
     let r := processDir c (.and [mt, .prim a]) start (some root) g
     r.gs.out = g.out ++ (visitsN (refCfg c) [] 0 n).flatMap (writtenM start mt a) ∧ r.quit = false := by
@@ -159,7 +158,7 @@ theorem processDir_outM (c : Config) (mt : M Prim) (ht : TestsOnly mt) (a : Prim
     · refine processRoot_pre (refCfg c) (evalEntry m start) hdf ?_ n _
       intro v s hp
       rw [(hev v s).1] at hp; cases hp
-    · exact processRoot_post (refCfg c) (evalEntry m start) hdf n (hH hdf) _
+    · exact processRoot_postAny (refCfg c) (evalEntry m start) hdf n _
   have hex := refNode_exact (refCfg c) (evalEntry m start) GS.out (writtenM start mt a) hev [] 0 n
     ⟨{ g with curDir := none }, 0, 0⟩
   show (processDir c m start (some root) g).gs.out = _ ∧ (processDir c m start (some root) g).quit = false
@@ -175,9 +174,7 @@ def writtenRootM (c : Config) (mt : M Prim) (a : Prim) (x : Bytes × Option (Nod
   | some r => (visitsN (refCfg c) [] 0 (if c.sorted then sortNode r else r)).flatMap (writtenM x.1 mt a)
 
 theorem doFind_outM (c : Config) (mt : M Prim) (ht : TestsOnly mt) (a : Prim) (ha : isOutP a = true)
-    (roots : List (Bytes × Option (Node Attr)))
-    (hH : ∀ x ∈ roots, ∀ r, x.2 = some r → (refCfg c).depthFirst = true →
-      ¬ HRootLink (refCfg c) (if c.sorted then sortNode r else r)) :
+    (roots : List (Bytes × Option (Node Attr))) :
     ∀ (g : GS) (ret diags : Nat),
       let res := doFind c (.and [mt, .prim a]) roots g ret diags
       res.gs.out = g.out ++ roots.flatMap (writtenRootM c mt a) ∧
@@ -187,7 +184,7 @@ theorem doFind_outM (c : Config) (mt : M Prim) (ht : TestsOnly mt) (a : Prim) (h
   | cons x xs ih =>
     intro g ret diags
     obtain ⟨start, root⟩ := x
-    have ih' := ih (fun y hy => hH y (by simp [hy]))
+    have ih' := ih
     simp only [doFind]
     cases root with
     | none =>
@@ -203,7 +200,7 @@ theorem doFind_outM (c : Config) (mt : M Prim) (ht : TestsOnly mt) (a : Prim) (h
       refine ⟨by rw [this.1, h1]; simp [writtenRootM], fun _ => this.2 (Or.inl ?_)⟩
       simp [h3]
     | some r =>
-      obtain ⟨ho, hq⟩ := processDir_outM c mt ht a ha start r g (hH (start, some r) (by simp) r rfl)
+      obtain ⟨ho, hq⟩ := processDir_outM c mt ht a ha start r g
       simp only [hq, Bool.false_eq_true, if_false]
       have := ih' (processDir c (.and [mt, .prim a]) start (some r) g).gs
         (if (processDir c (.and [mt, .prim a]) start (some r) g).ret != 0 then
@@ -265,8 +262,7 @@ theorem whole_run_tests (follow : Follow) (toks : List (Tok Prim)) (mt : M Prim)
       rw [List.map_map]; conv => rhs; rw [← List.map_id toks]
       rfl
     simp only [run, foldl_tok, hmap, hbt, Bool.false_eq_true, if_false]
-  · have h := doFind_outM { follow := follow } mt ht (.pathOut [] [10]) rfl roots
-      (fun _ _ _ _ hd => by simp [refCfg] at hd) g0 0 0
+  · have h := doFind_outM { follow := follow } mt ht (.pathOut [] [10]) rfl roots g0 0 0
     exact ⟨h.1, fun hx => h.2 (Or.inr hx)⟩
 
 end FuModel.Find.Run
